@@ -197,10 +197,10 @@ Definition draw : M N :=
 Definition id_or_draw (o : option N) : M N := match o with Some x => ret x | None => draw end.
 Definition opt_raise (o : option exn) : M unit := match o with Some e => raise e | None => ret tt end.
 
-(* try: ... except TopologyException: handler  (the handler runs in the state the body left behind) *)
-Definition catch_topology {A} (m : M A) (h : M A) : M A :=
+(* try: ... except Exception as e: handler(e)   (the handler runs in the state the body left behind) *)
+Definition catch_any {A} (m : M A) (h : exn -> M A) : M A :=
   fun s => match m s with
-           | (s', Err ETopology) => h s'
+           | (s', Err e) => h e s'
            | r => r
            end.
 
